@@ -257,7 +257,41 @@ pub fn check(ctx: &Ctx) -> i32 {
             }
         }
     });
+    // long runs on an exact cadence: 66 000 audio frames 1920 ticks apart (and 66 000 video
+    // frames 3000 ticks apart under a short audio track): counters of table builders that
+    // summarise equal deltas have their limits beyond 2^16
+    let longs = [(true, true), (true, false), (false, true), (false, false)];
+    let tl = par_items(&longs, ctx.seed, |idx, &(long_audio, fast), t| {
+        let cfg = Cfg::basic(VCodec::H264, Some(ACodec::AacLc), fast);
+        let n = 66_000usize;
+        let (nv, na) = if long_audio { (3, n) } else { (n, 40) };
+        let mut ops = Vec::with_capacity(nv + na);
+        let vk = Bytes::new(video_frame(VCodec::H264, true, true, 1, 3).0);
+        let vd = Bytes::new(video_frame(VCodec::H264, false, false, 2, 2).0);
+        let au = Bytes::new(audio_frame(ACodec::AacLc, 3, 3).0);
+        let base = 0.5;
+        // submission in timestamp order (video first on ties)
+        let (mut i, mut j) = (0usize, 0usize);
+        while i < nv || j < na {
+            let vt = base + i as f64 * 3000.0 / 90000.0;
+            let at = base + j as f64 * 1920.0 / 90000.0;
+            if j >= na || (i < nv && vt <= at) {
+                ops.push(Op::WV { pts: T(vt), data: if i == 0 { vk.clone() } else { vd.clone() }, key: i == 0 });
+                i += 1;
+            } else {
+                ops.push(Op::WA { pts: T(at), data: au.clone() });
+                j += 1;
+            }
+        }
+        // a few frames on another cadence at the end, so that a shortened run shows as a shift
+        let tail = base + (na.max(nv * 3000 / 1920 + 1)) as f64 * 1920.0 / 90000.0;
+        for q in 0..4usize {
+            ops.push(Op::WA { pts: T(tail + q as f64 * 2000.0 / 90000.0), data: au.clone() });
+        }
+        judge(&cfg, &ops, (90_000 + idx as u64, 0), t);
+    });
     let mut tally = tally;
+    tally.merge(tl);
     tally.merge(tj);
     tally.merge(tr);
     tally.merge(tc);
@@ -267,7 +301,7 @@ pub fn check(ctx: &Ctx) -> i32 {
         &tally,
         Meta {
             level: "model_checking",
-            rule: format!("every A/V history over: first video decode time {{0, 1/30, 1, 10 s}} x first video composition offset {{0, +2 frames}} x audio start minus first video presentation {{0, 1 tick, 1024/48000, 0.25, 3 s}} x 2-3 video frames x 2-3 audio frames x audio step pattern {{1024/48000, 1024/44100, 0.02, 0, (0, 1024/48000), (0.02, 0), (0.5, 0.02), (0.003, 0.5): pauses and overlaps relative to the packets' coded durations}}, plus runs of 8 and 12 audio frames at the 48 kHz and 44.1 kHz AAC spacings, plus every audio step sequence of 2..{jmax} steps over {{600, 1200, 1800, 3000}} ticks ({n_jitter} sequences x AAC/Opus), plus every standard AAC sample rate (7350 .. 96000 Hz) x 3 sub-sample displacement patterns (0-30 microseconds) x 2 start times x both layouts, plus {n_conv} encode_video/encode_audio histories (every sequence of 2..5 audio frame lengths over Opus {{10, 20, 40, 60 ms}} and AAC {{1024, 2048}}), plus 3 video + 3 audio frames starting 47721 s .. 1e9 s from zero (both sides of 2^32 and 2^33 ticks, audio runs that straddle 2^32 ticks) x plain/reordered video x 3 audio step patterns x 2 leads x H.264/VP9, x {{AAC, Opus}} x both layouts x codecs; executed on the real muxer; per-track presentation timelines rebuilt from stts/ctts (+ edit list if present, empty edits and media_time honoured) and every audio sample's presentation time relative to the first video frame compared with the submitted difference (tolerance 1 tick). Distinct by output bytes."),
+            rule: format!("every A/V history over: first video decode time {{0, 1/30, 1, 10 s}} x first video composition offset {{0, +2 frames}} x audio start minus first video presentation {{0, 1 tick, 1024/48000, 0.25, 3 s}} x 2-3 video frames x 2-3 audio frames x audio step pattern {{1024/48000, 1024/44100, 0.02, 0, (0, 1024/48000), (0.02, 0), (0.5, 0.02), (0.003, 0.5): pauses and overlaps relative to the packets' coded durations}}, plus runs of 8 and 12 audio frames at the 48 kHz and 44.1 kHz AAC spacings, plus every audio step sequence of 2..{jmax} steps over {{600, 1200, 1800, 3000}} ticks ({n_jitter} sequences x AAC/Opus), plus every standard AAC sample rate (7350 .. 96000 Hz) x 3 sub-sample displacement patterns (0-30 microseconds) x 2 start times x both layouts, plus {n_conv} encode_video/encode_audio histories (every sequence of 2..5 audio frame lengths over Opus {{10, 20, 40, 60 ms}} and AAC {{1024, 2048}}), plus 3 video + 3 audio frames starting 47721 s .. 1e9 s from zero (both sides of 2^32 and 2^33 ticks, audio runs that straddle 2^32 ticks) x plain/reordered video x 3 audio step patterns x 2 leads x H.264/VP9, plus four long histories (66 000 audio frames 1920 ticks apart, 66 000 video frames 3000 ticks apart, both layouts), x {{AAC, Opus}} x both layouts x codecs; executed on the real muxer; per-track presentation timelines rebuilt from stts/ctts (+ edit list if present, empty edits and media_time honoured) and every audio sample's presentation time relative to the first video frame compared with the submitted difference (tolerance 1 tick). Distinct by output bytes."),
             bound: "2-3 video frames, 2-3 audio frames (8 and 12 for the two constant spacings)".into(),
             exhaustive: true,
             assumptions: vec!["the known finding C09/no-start-offset is matched only when neither track has an edit list and every audio sample is off by exactly the lost start offset; any other deviation is reported as a violation".into()],
